@@ -385,10 +385,12 @@ def get_key_function(collation: Optional[str] = None,
 
 
 def same_key(k1: Any, k2: Any) -> bool:
-    if isinstance(k1, (str, AnyURI, UntypedAtomic)):
-        if not isinstance(k2, (str, AnyURI, UntypedAtomic)):
-            return False
-        return str(k1) == str(k2)
+    str1 = isinstance(k1, (str, AnyURI, UntypedAtomic))
+    str2 = isinstance(k2, (str, AnyURI, UntypedAtomic))
+    if str1 or str2:
+        return str1 and str2 and str(k1) == str(k2)
+    elif isinstance(k1, bool) or isinstance(k2, bool):
+        return isinstance(k1, bool) and isinstance(k2, bool) and k1 == k2
     elif isinstance(k1, float) and math.isnan(k1):
         return isinstance(k2, float) and math.isnan(k2)
     elif isinstance(k1, AbstractQName) ^ isinstance(k2, AbstractQName):
@@ -396,5 +398,5 @@ def same_key(k1: Any, k2: Any) -> bool:
 
     try:
         return True if k1 == k2 else False
-    except TypeError:
+    except (TypeError, ValueError, ArithmeticError):
         return False  # EAFP :)
